@@ -490,6 +490,11 @@ pub enum PreKind {
     /// a sibling binding set: cloned from the case's bindings, every parameter rebound to
     /// another value there and to its own value here, main executed with the sibling first
     SiblingBind(u8),
+    /// every parameter is first bound to a stale value with bind_param, then to its real
+    /// value (directly or from JSON, as the case says): the later binding replaces the earlier
+    StaleDirect(u8),
+    /// the same with the stale values bound from JSON first
+    StaleJson(u8),
 }
 
 pub const BAD_TEXTS: [&str; 6] = ["1 +", "(", "[1, 2", "x ? 1", "'abc", "1 2"];
